@@ -158,7 +158,13 @@ func (s *Session) racCheck(prop string, u0 *Unit, o *Obligation, mv map[string]s
 				goName = "p_" + sanitize(strings.TrimSuffix(pn, ".Buffer")) + ".Buffer"
 			}
 			if err := json.Unmarshal(raw[goName], &d); err == nil {
-				setHdr(hdrCur, n, id, d.Ch, placeDump(v.Elem, d), d.Len, d.Cap, d.BD)
+				pp := placeDump(v.Elem, d)
+				if d.Cap == 0 && d.Where == "mem" {
+					// Go does not advance the data pointer of a zero-capacity slice (s[i:i:i] keeps the
+					// base), so its position is unobservable: keep the model's
+					pp = p
+				}
+				setHdr(hdrCur, n, id, d.Ch, pp, d.Len, d.Cap, d.BD)
 			}
 			if id+1 > nextID[n] {
 				nextID[n] = id + 1
@@ -350,7 +356,27 @@ func (s *Session) racCheck(prop string, u0 *Unit, o *Obligation, mv map[string]s
 			violated = append(violated, label)
 		}
 	}
-	usesAllocs := func(c *Clause) bool { return strings.Contains(c.Text, "allocs") }
+	// conjuncts of a clause (under its implications' antecedents): A ==> (c1 && c2) gives A ==> c1, A ==> c2.
+	// A conjunct over ghost state that a run cannot observe (the allocation counter) is left out;
+	// the others are checked one by one.
+	var conjuncts func(e *SExpr) []*SExpr
+	conjuncts = func(e *SExpr) []*SExpr {
+		if e.Kind == "bin" && e.Name == "&&" {
+			return append(conjuncts(e.Args[0]), conjuncts(e.Args[1])...)
+		}
+		if e.Kind == "bin" && e.Name == "==>" {
+			var out []*SExpr
+			for _, c := range conjuncts(e.Args[1]) {
+				out = append(out, &SExpr{Kind: "bin", Name: "==>", Args: []*SExpr{e.Args[0], c}, Pos: e.Pos})
+			}
+			return out
+		}
+		return []*SExpr{e}
+	}
+	unobservable := func(e *SExpr) bool {
+		t := e.String()
+		return strings.Contains(t, "allocs")
+	}
 	if ct.Panics != nil {
 		p := u.evalSpecBool(&oenv, ct.Panics.Expr)
 		if hasProp(ct.Panics.props(ct), prop) {
@@ -363,13 +389,19 @@ func (s *Session) racCheck(prop string, u0 *Unit, o *Obligation, mv map[string]s
 	}
 	if !panicked {
 		for i, en := range ct.Ensures {
-			if !hasProp(en.props(ct), prop) || usesAllocs(en) {
+			if !hasProp(en.props(ct), prop) {
 				continue
 			}
 			if result == nil && strings.Contains(en.Text, "result") {
 				continue
 			}
-			check("ensures:"+clauseLabel(en, i), u.evalSpecBool(env, en.Expr))
+			before := len(violated)
+			for _, cj := range conjuncts(en.Expr) {
+				if unobservable(cj) || len(violated) > before {
+					continue
+				}
+				check("ensures:"+clauseLabel(en, i), u.evalSpecBool(env, cj))
+			}
 		}
 	} else if ct.Panics == nil && hasProp(ct.Props, prop) {
 		violated = append(violated, "panicked although the contract has no panics clause")
